@@ -565,6 +565,35 @@ pub fn one_case(r: &mut Rng, g: &mut ExprGen, out: &mut Out, k_subst: usize) {
             let extra = *r.pick(&["unknown(\"{}\") == 1", "unknown(\"{}\")", "!(unknown(\"{}\") < 3)"]);
             s.text = s.text.trim_end_matches(';').to_string() + &format!(" when {{ {} }};", extra.replace("{}", &name));
         }
+        if r.chance(18) {
+            // projection out of / `has` on a record literal one of whose OTHER fields holds a residual that can still
+            // error, directly or nested in a set / record / extension call (`Expr::is_projectable` must say no)
+            let k: Option<String> = c.ctx.as_ref().and_then(|kvs| {
+                let unk_keys: Vec<String> = kvs.iter().filter(|(_, a)| matches!(a, AttrSpec::Unk { wrap: 0, .. })).map(|(k, _)| k.to_string()).collect();
+                if unk_keys.is_empty() { None } else { Some(unk_keys[r.below(unk_keys.len())].clone()) }
+            });
+            let acc = match &k {
+                Some(k) if k.chars().all(|ch| ch.is_ascii_alphanumeric()) && !["if", "in", "is", "has", "like", "then", "else", "true", "false"].contains(&k.as_str()) => format!("context.{k}"),
+                Some(k) => format!("context[\"{k}\"]"),
+                None => "context.nosuchattr".to_string(),
+            };
+            let danger = match r.below(6) {
+                0 => format!("{acc} + 1"),
+                1 => format!("[{acc} + 1, 10]"),
+                2 => format!("{{x: {acc} + 1}}"),
+                3 => format!("[[{acc} * 2]]"),
+                4 => format!("decimal({acc})"),
+                _ => format!("[{{y: [-({acc})]}}]"),
+            };
+            let cond = match r.below(4) {
+                0 => format!("{{scores: {danger}, enabled: true}}.enabled"),
+                1 => format!("{{scores: {danger}, enabled: true}} has enabled"),
+                2 => format!("!({{scores: {danger}, enabled: false}}.enabled)"),
+                _ => format!("{{scores: {danger}, enabled: true}} has nosuch || true"),
+            };
+            s.text = s.text.trim_end_matches(';').to_string() + &format!(" when {{ {cond} }};");
+            out.count("record_projection_with_risky_sibling");
+        }
         specs.push(s);
     }
     let order: Vec<usize> = (0..specs.len()).collect();
